@@ -14,3 +14,6 @@ bootstrap.init()
 print('setup: C simulators built for', bootstrap.REPO)
 "
 /venv/bin/python -m ref.selftest
+/venv/bin/python -m ref.pngdec
+/venv/bin/python -m ref.taperef
+/venv/bin/python -m ref.snapdec
